@@ -82,7 +82,8 @@ Same(a, b) == a.p = b.o /\ a.tag = b.tag          \* link content vs handle: poi
 LocContent(r, loc) == IF loc.k = "c" THEN LinkOf(r.cell[loc.o]) ELSE LinkOf(r.fld[loc.o][loc.f])
 WLocContent(r, loc) == IF loc.k = "c" THEN LinkOf(r.wcell[loc.o]) ELSE LinkOf(r.wfld[loc.o])
 Out(i) == R.ret.outs[i]
-Stamp(p) == IF p = 0 THEN 0 ELSE R.gep % M
+\* a timestamp is read while pinned and published later: it is the current epoch or its predecessor
+StampOk(x) == IF x.p = 0 THEN TRUE ELSE x.ts \in {R.gep % M, (R.gep + M - 1) % M}
 
 \* C04/C03: each life-cycle event at most once and in order; no write into a freed block
 ObsOnce == \A o \in 1..NO(R) : R.obj[o].npop <= 1 /\ R.obj[o].ndrop <= 1 /\ R.obj[o].nfree <= 1 /\ R.obj[o].ord
@@ -111,7 +112,7 @@ ObsCas == (IsCas /\ HasPrev) =>
             LET before == LocContent(Q, R.ret.loc)  after == LocContent(R, R.ret.loc) IN
             IF R.ret.ok
             THEN /\ Same(before, R.ret.exp)
-                 /\ Same(after, R.ret.des) /\ after.ts = Stamp(after.p)
+                 /\ Same(after, R.ret.des) /\ StampOk(after)
                  /\ R.ret.nout = 1 /\ Out(1).k = "r" /\ Out(1).o = before.p /\ Out(1).tag = before.tag
             ELSE /\ ~Same(before, R.ret.exp)
                  /\ after = before
@@ -128,7 +129,7 @@ ObsCasTag == (Done("cas_tag") /\ HasPrev) =>
                  /\ R.ret.xtag = R.ret.ntag
 ObsSwap == (Done("swap") /\ HasPrev) =>
             LET before == LocContent(Q, R.ret.loc)  after == LocContent(R, R.ret.loc) IN
-            /\ Same(after, R.ret.des) /\ after.ts = Stamp(after.p)
+            /\ Same(after, R.ret.des)      \* swap takes no guard: its timestamp may be older
             /\ Out(1).o = before.p /\ Out(1).tag = before.tag
 ObsLoad == (Done("load") /\ HasPrev) =>
             LET before == LocContent(Q, R.ret.loc) IN Out(1).o = before.p /\ Out(1).tag = before.tag
